@@ -4,6 +4,8 @@
 package main
 
 import (
+	"crypto/sha1"
+	"encoding/hex"
 	"encoding/json"
 	"fmt"
 	"go/ast"
@@ -23,6 +25,53 @@ type site struct {
 	Line     int    `json:"line"`
 	Expr     string `json:"expr"`
 	KeyOnly  bool   `json:"keyOnly"`
+	LoopFP   string `json:"loopFP"` // fingerprint of the range statement with the function's own identifiers renamed by first occurrence
+	FuncFP   string `json:"funcFP"` // the same for the whole enclosing function body (its name, file and receiver name do not enter)
+}
+
+// fingerprint prints the shape of a syntax tree: node kinds, operators, literals, and identifiers - those declared inside the
+// enclosing function (parameters, receiver, locals) as L0, L1, ... in order of first occurrence, all others (package-level
+// functions, types, fields, methods, imported names) by name. Renaming a function, moving it to another file or renaming its
+// locals leaves the fingerprint unchanged; any change of what the code does changes it.
+func fingerprint(info *types.Info, fd *ast.FuncDecl, root ast.Node) string {
+	var b strings.Builder
+	local := map[types.Object]int{}
+	ast.Inspect(root, func(n ast.Node) bool {
+		if n == nil {
+			b.WriteString(")")
+			return true
+		}
+		fmt.Fprintf(&b, "(%T", n)
+		switch x := n.(type) {
+		case *ast.Ident:
+			obj := info.ObjectOf(x)
+			if obj != nil && obj.Pos() >= fd.Pos() && obj.Pos() <= fd.End() {
+				if _, ok := local[obj]; !ok {
+					local[obj] = len(local)
+				}
+				fmt.Fprintf(&b, " L%d", local[obj])
+			} else {
+				fmt.Fprintf(&b, " %s", x.Name)
+			}
+		case *ast.BasicLit:
+			fmt.Fprintf(&b, " %s", x.Value)
+		case *ast.BinaryExpr:
+			fmt.Fprintf(&b, " %s", x.Op)
+		case *ast.UnaryExpr:
+			fmt.Fprintf(&b, " %s", x.Op)
+		case *ast.AssignStmt:
+			fmt.Fprintf(&b, " %s", x.Tok)
+		case *ast.IncDecStmt:
+			fmt.Fprintf(&b, " %s", x.Tok)
+		case *ast.BranchStmt:
+			fmt.Fprintf(&b, " %s", x.Tok)
+		case *ast.RangeStmt:
+			fmt.Fprintf(&b, " %s", x.Tok)
+		}
+		return true
+	})
+	sum := sha1.Sum([]byte(b.String()))
+	return hex.EncodeToString(sum[:8])
 }
 
 type call struct {
@@ -75,12 +124,14 @@ func main() {
 						if t != nil {
 							if _, ok := t.Underlying().(*types.Map); ok {
 								sites = append(sites, site{Pkg: p.PkgPath, Func: name, Ordinal: ord, File: rel,
-									Line: p.Fset.Position(x.Pos()).Line, Expr: types.ExprString(x.X), KeyOnly: x.Value == nil})
+									Line: p.Fset.Position(x.Pos()).Line, Expr: types.ExprString(x.X), KeyOnly: x.Value == nil,
+									LoopFP: fingerprint(p.TypesInfo, fd, x), FuncFP: fingerprint(p.TypesInfo, fd, fd.Body)})
 								ord++
 							} else if pt, ok := t.Underlying().(*types.Pointer); ok {
 								if _, ok := pt.Elem().Underlying().(*types.Map); ok {
 									sites = append(sites, site{Pkg: p.PkgPath, Func: name, Ordinal: ord, File: rel,
-										Line: p.Fset.Position(x.Pos()).Line, Expr: types.ExprString(x.X), KeyOnly: x.Value == nil})
+										Line: p.Fset.Position(x.Pos()).Line, Expr: types.ExprString(x.X), KeyOnly: x.Value == nil,
+										LoopFP: fingerprint(p.TypesInfo, fd, x), FuncFP: fingerprint(p.TypesInfo, fd, fd.Body)})
 									ord++
 								}
 							}
